@@ -121,9 +121,13 @@ func (n *FileNode) Needed(a, b int64) map[string]bool {
 // withheld block — or -1 if none occurs.
 func (n *FileNode) FirstSpanOf(withheld map[string]bool) int64 {
 	best := int64(-1)
+	lead := n.LeadingEmpty()
 	n.walk(func(m *FileNode) {
-		// a block whose span is empty contributes no byte: a reader never needs it
-		if withheld[m.Cid.KeyString()] && m.End > m.Start {
+		// an empty chunk that FOLLOWS data in its parent is opened by a reader
+		// when it gets there (needed, at its position); an empty chunk at the
+		// position where a reader of its parent starts is skipped by the
+		// unmodified reader (see the C06 known finding): optional
+		if withheld[m.Cid.KeyString()] && (m.End > m.Start || !lead[m.Cid.KeyString()]) {
 			if best < 0 || m.Start < best {
 				best = m.Start
 			}
@@ -132,12 +136,13 @@ func (n *FileNode) FirstSpanOf(withheld map[string]bool) int64 {
 	return best
 }
 
-// EmptyStarts returns the byte positions at which withheld blocks with an empty
-// span occur (a reader may or may not open such a block when it gets there).
+// EmptyStarts returns the byte positions at which withheld LEADING empty chunks
+// occur (a reader may or may not open such a block when it gets there).
 func (n *FileNode) EmptyStarts(withheld map[string]bool) []int64 {
 	var out []int64
+	lead := n.LeadingEmpty()
 	n.walk(func(m *FileNode) {
-		if withheld[m.Cid.KeyString()] && m.End == m.Start {
+		if withheld[m.Cid.KeyString()] && m.End == m.Start && lead[m.Cid.KeyString()] {
 			out = append(out, m.Start)
 		}
 	})
